@@ -14,8 +14,7 @@ def seqnoTab : Array (BitVec 32) := #[0#32, 1#32, 2#32, 3#32, 0xFFFFFFFE#32, 0xF
 def connOfCode (id code : Nat) : Conn :=
   { id := id, alive := code / 18 == 1, seqno := seqnoTab[(code / 3) % 6]!, rtt := Int.ofNat (code % 3 + 1) }
 
-def stratOf (s : String) : Strategy :=
-  if s == "best-ping" then .bestPing else if s == "first-working" then .firstWorking else .other
+def stratOf (s : String) : Strategy := strategyOfName s
 
 def prevOf (cs : List Conn) (p : Int) : Option Conn := if p < 0 then none else cs[p.toNat]?
 
@@ -53,22 +52,44 @@ def connOfText (id : Nat) (s : String) : Option Conn :=
 def connsOfText (l : List String) : Option (List Conn) :=
   l.zipIdx.mapM (fun (s, i) => connOfText i s)
 
-/-! ### wait protocol: scripted scenarios on the transition system `PoolSM` -/
-open Tongo.PoolSM in
-/-- the actions the threads take on their own (everything except arrivals, the ticker and timers/cancellations) -/
-def autoActions (v : Variant) (parked : List Nat) (s : State) : List Action :=
-  (enabledActions v s).filter fun
-    | .wRecv i => !parked.contains i
-    | .recv | .nRLock | .nSend _ | .nDrain _ | .nPut | .nDone | .wSub _ | .wUnsub _ | .sSend _ => true
-    | _ => false
+/-! ### wait protocol: scripted scenarios on the transition system `PoolSM`
+
+The driver schedules the model deterministically the way the harness schedules the real goroutines: after every
+script step everything that can run on its own runs (`settle`), threads that wait for the pool's write lock before
+`Run` (Go's RWMutex prefers a waiting writer to a new reader). `Ctl` is the script-side control state: waiters held at
+the entry of their select (`parked`), the Run-side gate (`armed` → `runParked`: Run sits in notifySubscribers at its
+`bestConn.ID()` test, read lock held), and what the script has queued behind the lock meanwhile. -/
+structure Ctl where
+  parked : List Nat := []
+  armed : Bool := false
+  runParked : Bool := false
+  late : List Nat := []                       -- arrivals queued on the write lock
+  pendTick : Option (Nat × List Int) := none  -- a refresh queued on the write lock
+  launched : List Nat := []
 
 open Tongo.PoolSM in
-def settle (v : Variant) (parked : List Nat) : Nat → State → State
+/-- the actions the threads take on their own (everything except arrivals, the ticker and timers/cancellations);
+waiters first, then Run. While the Run gate holds, Run does not pass its `nCheck`. -/
+def autoActions (v : Variant) (c : Ctl) (s : State) : List Action :=
+  let en := (enabledActions v s).filter fun
+    | .wRecv i => !c.parked.contains i
+    | .nCheck => !(c.armed || c.runParked)
+    | .recv | .nRLock | .nSend _ | .nDrain _ | .nPut | .nDone | .wSub _ | .wUnsub _ | .sSend _ => true
+    | _ => false
+  let isRun : Action → Bool := fun
+    | .recv | .nRLock | .nCheck | .nSend _ | .nDrain _ | .nPut | .nDone => true
+    | _ => false
+  -- Run finishes the call it is in before anybody else gets the lock; otherwise the others go first
+  if s.run != .idle then en.filter isRun ++ en.filter (fun a => !isRun a)
+  else en.filter (fun a => !isRun a) ++ en.filter isRun
+
+open Tongo.PoolSM in
+def settle (v : Variant) (c : Ctl) : Nat → State → State
   | 0, s => s
-  | fuel + 1, s => match autoActions v parked s with
+  | fuel + 1, s => match autoActions v c s with
     | [] => s
     | a :: _ => match step v s a with
-      | some s' => settle v parked fuel s'
+      | some s' => settle v c fuel s'
       | none => s
 
 open Tongo.PoolSM in
@@ -79,15 +100,16 @@ def atRest (s : State) : Bool :=
   s.setters.all (fun x => match x.pc with | .sendLocked => false | .sendUnlocked => false | _ => true)
 
 open Tongo.PoolSM in
-def obsOf (s : State) : String :=
+def obsOf (c : Ctl) (s : State) : String :=
   let b : Int := match s.best with | none => -1 | some c => c
-  let ws := s.waiters.map fun w => match w.pc with
-    | .start => '-'
+  let ws := s.waiters.zipIdx.map fun (w, i) => match w.pc with
+    | .start => if c.launched.contains i then 'w' else '-'
     | .done .ok => 'o'
     | .done .err => 'e'
     | .done .panic => 'p'
     | _ => 'w'
-  s!"{b}/{s.waitList.length}/{String.ofList ws}"
+  if c.runParked then s!"P{s.upd.length}/{String.ofList ws}"
+  else s!"{b}/{s.waitList.length}/{String.ofList ws}"
 
 structure Scen where
   strategy : Strategy
@@ -107,43 +129,93 @@ def scenInit (sc : Scen) : State :=
   let pubs := sc.steps.filterMap fun st => match st with
     | ["u", c, q] => some (c.toNat?.getD 0, q.toNat?.getD 0)
     | _ => none
-  mkInit sc.heads sc.best targets pubs
+  mkInit sc.heads sc.best targets pubs sc.strategy ((List.range sc.heads.length).map (fun (i : Nat) => Int.ofNat i + 1))
 
 open Tongo.PoolSM in
 def apply? (v : Variant) (s : State) (as : List Action) : Option State := runTrace v s as
 
 open Tongo.PoolSM in
-/-- one script step; `k` = number of `u` steps seen so far; `shorts` = waiters with a short timer; `parked` =
-waiters held at the entry of their select (they do not receive). Returns `none` when the model cannot take the step
-(a thread that should move is blocked). -/
-def scenStep (v : Variant) (sc : Scen) (s : State) (k : Nat) (shorts parked : List Nat) (st : List String) :
-    Option (State × List Nat) :=
+/-- the actions of one complete refresh issued by the script: the environment sets liveness / rtt, then the ticker -/
+def tickActions (s : State) (m : Nat) (rs : List Int) : List Action :=
+  let n := s.heads.length
+  ((List.range n).flatMap fun i =>
+    [Action.setAlive i ((m >>> i) % 2 == 1)] ++ (match rs[i]? with | some r => [.setRtt i r] | none => []))
+  ++ [.tick, .ubLock] ++ List.replicate (n + 1) .ubRead ++ List.replicate n .ubSel ++ [.ubSet]
+
+open Tongo.PoolSM in
+/-- after a step: if the Run gate is armed and Run has reached its `nCheck`, it is parked there -/
+def notePark (c : Ctl) (s : State) : Ctl :=
+  match s.run with
+  | .nCheck _ _ => if c.armed then { c with armed := false, runParked := true } else c
+  | _ => c
+
+open Tongo.PoolSM in
+/-- release of the Run gate: Run finishes its notification; whoever queued on the write lock goes next (an arrival
+subscribes, a refresh runs); then everything settles. -/
+def releaseRun (v : Variant) (c : Ctl) (s : State) : Option (State × Ctl) :=
+  let c := { c with armed := false, runParked := false }
+  let noLockTakers : Ctl := c
+  -- 1. Run finishes the current notifySubscribers (waiters that are not held may receive meanwhile)
+  let s := settleRunCall v noLockTakers 10000 s
+  -- 2. queued writers
+  let s? := c.late.foldl (fun (o : Option State) i => o.bind fun s =>
+    (apply? v s [.wLock i]).map (settleNoRun v c 10000)) (some s)
+  let s? := s?.bind fun s => match c.pendTick with
+    | some (m, rs) => apply? v s (tickActions s m rs)
+    | none => some s
+  s?.map fun s => (settle v { c with late := [], pendTick := none } 10000 s, { c with late := [], pendTick := none })
+where
+  /-- run only Run's own actions until it is back in its select (idle), plus receives of unheld waiters -/
+  settleRunCall (v : Variant) (c : Ctl) : Nat → State → State
+    | 0, s => s
+    | fuel + 1, s =>
+      if s.run == .idle then s else
+      match (autoActions v c s).filter (fun a => match a with
+          | .nCheck | .nSend _ | .nDrain _ | .nPut | .nDone | .wRecv _ => true | _ => false) with
+      | [] => s
+      | a :: _ => match step v s a with
+        | some s' => settleRunCall v c fuel s'
+        | none => s
+  /-- everything except Run's `recv` / `nRLock` (the queued writer acts before Run gets the lock again) -/
+  settleNoRun (v : Variant) (c : Ctl) : Nat → State → State
+    | 0, s => s
+    | fuel + 1, s =>
+      match (autoActions v c s).filter (fun a => match a with | .recv | .nRLock => false | _ => true) with
+      | [] => s
+      | a :: _ => match step v s a with
+        | some s' => settleNoRun v c fuel s'
+        | none => s
+
+open Tongo.PoolSM in
+/-- one script step; `k` = number of `u` steps seen so far; `shorts` = waiters with a short timer.
+Returns `none` when the model cannot take the step (a thread that should move is blocked). -/
+def scenStep (v : Variant) (s : State) (k : Nat) (shorts : List Nat) (c : Ctl) (st : List String) :
+    Option (State × Ctl) :=
+  let fin (c : Ctl) (s' : State) : State × Ctl := let s'' := settle v c 10000 s'; (s'', notePark c s'')
   match st with
   | ["w", i, _, kind] =>
     let i := i.toNat?.getD 0
-    let parked := if kind == "P" then i :: parked else parked
-    (apply? v s [.wLock i]).map fun s' => (settle v parked 10000 s', parked)
-  | ["u", _, _] => (apply? v s [.sLock k]).map fun s' => (settle v parked 10000 s', parked)
+    let c := { c with launched := i :: c.launched }
+    if c.runParked then some (s, { c with late := c.late ++ [i] })
+    else
+      let c := if kind == "P" then { c with parked := i :: c.parked } else c
+      (apply? v s [.wLock i]).map (fin c)
+  | ["u", _, _] => (apply? v s [.sLock k]).map (fin c)
   | ["t", mask, rtts] =>
     let m := mask.toNat?.getD 0
     let rs := (rtts.splitOn ".").map (fun x => x.toInt?.getD 1)
-    let conns := s.heads.zipIdx.map fun (h, i) =>
-      ({ id := i, alive := (m >>> i) % 2 == 1, seqno := BitVec.ofNat 32 h, rtt := rs.getD i 1 } : Conn)
-    let prev := match s.best with | none => none | some c => conns[c]?
-    let choice := (specSelect sc.strategy conns prev).map (·.id)
-    (apply? v s ([.tick, .ubLock] ++ List.replicate s.heads.length .ubRead ++ [.ubSet choice])).map
-      fun s' => (settle v parked 10000 s', parked)
-  | ["r", i] =>
-    let parked := parked.erase (i.toNat?.getD 0)
-    some (settle v parked 10000 s, parked)
-  | [c, i] =>
+    if c.runParked then some (s, { c with pendTick := some (m, rs) })
+    else (apply? v s (tickActions s m rs)).map (fin c)
+  | ["r", i] => some (fin { c with parked := c.parked.erase (i.toNat?.getD 0) } s)
+  | ["G"] => some (s, if c.runParked then c else { c with armed := true })
+  | ["g"] => if c.runParked then releaseRun v c s else some (s, { c with armed := false })
+  | [cmd, i] =>
     let i := i.toNat?.getD 0
-    if (c == "c" ∨ (c == "x" ∧ i ∈ shorts)) ∧ !parked.contains i then
+    if (cmd == "c" ∨ (cmd == "x" ∧ i ∈ shorts ∧ !c.runParked)) ∧ !c.parked.contains i then
       match s.waiters[i]? with
-      | some w => if w.pc == .sel then (apply? v s [.wFire i]).map fun s' => (settle v parked 10000 s', parked)
-                  else some (s, parked)
-      | none => some (s, parked)
-    else if c == "x" ∨ c == "c" then some (s, parked) else none
+      | some w => if w.pc == .sel then (apply? v s [.wFire i]).map (fin c) else some (s, c)
+      | none => some (s, c)
+    else if cmd == "x" ∨ cmd == "c" then some (s, c) else none
   | _ => none
 
 open Tongo.PoolSM in
@@ -151,28 +223,63 @@ def runScen (v : Variant) (sc : Scen) : String :=
   let shorts := sc.steps.filterMap fun st => match st with
     | ["w", i, _, "S"] => i.toNat?
     | _ => none
-  let rec go (s : State) (k : Nat) (parked : List Nat) (acc : List String) :
-      List (List String) → Option (State × List Nat × List String)
-    | [] => some (s, parked, acc)
+  let rec go (s : State) (k : Nat) (c : Ctl) (acc : List String) :
+      List (List String) → Option (State × Ctl × List String)
+    | [] => some (s, c, acc)
     | st :: rest =>
-      match scenStep v sc s k shorts parked st with
+      match scenStep v s k shorts c st with
       | none => none
-      | some (s', parked') =>
-        if atRest s' then go s' (if st.head? == some "u" then k + 1 else k) parked' (obsOf s' :: acc) rest else none
-  match go (scenInit sc) 0 [] [] sc.steps with
+      | some (s', c') =>
+        if c'.runParked ∨ atRest s' then
+          go s' (if st.head? == some "u" then k + 1 else k) c' (obsOf c' s' :: acc) rest
+        else none
+  match go (scenInit sc) 0 {} [] sc.steps with
   | none => "hang"
-  | some (s, _, acc) =>
-    -- epilogue: parked waiters are released, then everybody still waiting is cancelled, in order of arrival
+  | some (s, c, acc) =>
+    -- epilogue: Run and held waiters are released, then everybody still waiting is cancelled, in order of arrival
     let order := sc.steps.filterMap fun st => match st with
       | ["w", i, _, _] => i.toNat?
       | _ => none
-    let s := settle v [] 10000 s
-    let fin := order.foldl (fun (o : Option State) i => o.bind fun s =>
-      match s.waiters[i]? with
-      | some w => if w.pc == .sel then (apply? v s [.wFire i]).map (settle v [] 10000) else some s
-      | none => some s) (some s)
-    match fin with
-    | some s' => if atRest s' then "ok " ++ "|".intercalate ((obsOf s' :: acc).reverse) else "hang"
+    match (if c.runParked then releaseRun v c s else some (s, { c with armed := false })) with
+    | none => "hang"
+    | some (s, c) =>
+      let c := { c with parked := [] }
+      let s := settle v c 10000 s
+      let fin := order.foldl (fun (o : Option State) i => o.bind fun s =>
+        match s.waiters[i]? with
+        | some w => if w.pc == .sel then (apply? v s [.wFire i]).map (settle v c 10000) else some s
+        | none => some s) (some s)
+      match fin with
+      | some s' => if atRest s' then "ok " ++ "|".intercalate ((obsOf c s' :: acc).reverse) else "hang"
+      | none => "hang"
+
+open Tongo.PoolSM in
+/-- `selectmv.run`: members `alive:seqno:rtt`, moves `m<k>:<conn>:<seqno>` = SetMasterHead(conn, seqno) just before
+the k-th MasterHead() call of the refresh. -/
+def selectMoving (v : Variant) (st : Strategy) (prev : Int) (args : List String) : String :=
+  let mem := args.filter (fun x => !x.startsWith "m")
+  let moves := (args.filter (fun x => x.startsWith "m")).map fun x => ((x.drop 1).toString.splitOn ":").map (·.toNat?.getD 0)
+  match connsOfText mem with
+  | none => "bad-op"
+  | some cs =>
+    let n := cs.length
+    let s0 : State :=
+      { mkInit (cs.map (·.seqno.toNat)) (if prev < 0 ∨ prev.toNat ≥ n then none else some prev.toNat) []
+          (moves.map fun m => (m.getD 1 0, m.getD 2 0)) st (cs.map (·.rtt)) with alive := cs.map (·.alive) }
+    -- the k-th head-reading action is preceded by the moves with index k
+    let readStep (k : Nat) (a : Action) (s : State) : Option State :=
+      -- a move is a complete SetMasterHead call: lock/compare/store, then the publication if the head was newer
+      let s := (moves.zipIdx.filter (fun (m, _) => m.getD 0 0 == k)).foldl (fun (s : State) (_, j) =>
+        match step v s (.sLock j) with
+        | some s1 => (step v s1 (.sSend j)).getD s1
+        | none => s) s
+      runTrace v s [a]
+    let pass1 := (List.range n).foldl (fun (o : Option State) k => o.bind (readStep k .ubRead)) (runTrace v s0 [.tick, .ubLock])
+    let pass1 := pass1.bind fun s => runTrace v s [.ubRead]
+    let pass2 := (List.range n).foldl (fun (o : Option State) k => o.bind fun s =>
+      if v.oneSnapshot then runTrace v s [.ubSel] else readStep (n + k) .ubSel s) pass1
+    match pass2.bind fun s => runTrace v s [.ubSet] with
+    | some s => s!"ok {(match s.best with | none => (-1 : Int) | some c => c)}"
     | none => "hang"
 
 def scenOf : List String → Option Scen
@@ -204,6 +311,17 @@ def opsC13 : List (String × Handler) := [
     | st :: prev :: conns => match prev.toInt?, connsOfText conns with
       | some p, some cs => s!"ok {(resId (updateBest true (stratOf st) cs (prevOf cs p)) : Int) - 1}"
       | _, _ => "bad-op"
+    | _ => "bad-op"),
+  -- one refresh with heads moving between the reads (see harness: selectmv.run)
+  ("selectmv.run", fun
+    | st :: prev :: rest => match prev.toInt? with
+      | some p => selectMoving Tongo.PoolSM.fixed (stratOf st) p rest
+      | none => "bad-op"
+    | _ => "bad-op"),
+  ("selectmvorig.run", fun
+    | st :: prev :: rest => match prev.toInt? with
+      | some p => selectMoving ⟨true, true, false, true⟩ (stratOf st) p rest
+      | none => "bad-op"
     | _ => "bad-op"),
   ("wait.script", fun a => match scenOf a with
     | some sc => runScen Tongo.PoolSM.fixed sc
